@@ -33,11 +33,28 @@ def command_class(name):
 def make_array(spec, shape=None):
     """spec: {"data": flat list, "mask": None | flat list of 0/1, "dtype": str}; shape overrides spec['shape']."""
     shape = tuple(shape if shape is not None else spec.get("shape") or [len(spec["data"])])
-    data = numpy.array(spec["data"], dtype=spec.get("dtype", "float64")).reshape(shape)
+    data = relayout(numpy.array(spec["data"], dtype=spec.get("dtype", "float64")).reshape(shape), spec.get("layout"))
     mask = spec.get("mask")
     if mask is None:
-        return numpy.ma.array(data)
-    return numpy.ma.array(data, mask=numpy.array(mask, dtype=bool).reshape(shape))
+        return numpy.ma.array(data, copy=False)
+    return numpy.ma.array(data, mask=relayout(numpy.array(mask, dtype=bool).reshape(shape), spec.get("layout")), copy=False)
+
+
+def relayout(a, layout):
+    """The same logical array in another memory layout: "f" = Fortran order, "strided" = a view into a larger
+    buffer (every second element along the last axis), "reversed" = negative strides.  Commands must not care."""
+    if not layout or layout == "c" or a.size == 0:
+        return a
+    if layout == "f":
+        return numpy.asfortranarray(a)
+    if layout == "strided":
+        big = numpy.zeros(a.shape[:-1] + (a.shape[-1] * 2,), dtype=a.dtype)
+        big[..., ::2] = a
+        big[..., 1::2] = 77
+        return big[..., ::2]
+    if layout == "reversed":
+        return numpy.ascontiguousarray(a[..., ::-1])[..., ::-1]
+    return a
 
 
 def stub(name, arr, fuzzy=False):
